@@ -154,19 +154,38 @@ def rule_laplacian(repo: Repo, rep: Report) -> int:
 
 
 def rule_nonlinear(repo: Repo, rep: Report) -> int:
+    """The noise stage of the nonlinear channel delivers the configured power / SNR relative to the nonlinearity's
+    output, in every complex mode (derived with the scaling-law interpreter; the user function is a signal source)."""
     fi = repo.func(AN, "NonlinearChannel.forward")
     n = 0
-    calls = [c for c in ast.walk(fi.node) if isinstance(c, ast.Call) and call_name(c) == "_apply_noise"]
-    ok = len(calls) == 1 and {k.arg: unparse(k.value) for k in calls[0].keywords} == {"snr_db": "self.snr_db", "noise_power": "self.avg_noise_power"} and len(calls[0].args) == 1 and unparse(calls[0].args[0]) == "y"
-    rep.shape(ok, len(calls) == 1 and (len(calls[0].args) == 1 and unparse(calls[0].args[0]) == "x"), "VARIANCE-LAW", fi, f"noise stage: {unparse(calls[0]) if calls else '(none)'}", "noise is added by the shared _apply_noise with the configured parameters, calibrated on the nonlinearity's output", "the nonlinear channel does not add its noise through _apply_noise(y, snr_db=self.snr_db, noise_power=self.avg_noise_power)", node=calls[0] if calls else fi.node)
-    n += 1
-    from ..astutil import ancestors, set_parents
-
-    set_parents(fi.node)
-    if calls:
-        guard = next((a for a in ancestors(calls[0]) if isinstance(a, ast.If)), None)
-        rep.shape(guard is not None and unparse(guard.test) == "self.add_noise", guard is not None and unparse(guard.test) == "not self.add_noise", "VARIANCE-LAW", fi, f"noise guarded by: {unparse(guard.test) if guard else '(none)'}", "noise only when requested", "noise is not guarded by self.add_noise", node=calls[0])
+    fsrc = SV("sig", ONE, src="f(x)")
+    for cplx, modes in ((False, (None,)), (True, ("direct", "cartesian", "polar"))):
+        for cmode in modes:
+            for par in ("power", "snr"):
+                atoms = {"torch.is_complex(x)": cplx, "self.add_noise": True, "snr_db is not None": par == "snr", "noise_power is None": False}
+                for m_ in ("direct", "cartesian", "polar"):
+                    atoms[f"self.complex_mode == '{m_}'"] = m_ == cmode
+                attrs = {"self.avg_noise_power": SV("det", P) if par == "power" else NONE_V, "self.snr_db": DBP("snr_db") if par == "snr" else NONE_V}
+                v, it = run_fn(repo, fi, {"x": SIG}, atoms, attrs, {"self.nonlinear_fn": fsrc})
+                what = f"NonlinearChannel({'complex, ' + cmode if cplx else 'real'}; {'avg_noise_power=P' if par == 'power' else 'snr_db'})"
+                if par == "power":
+                    expect_out(rep, "VARIANCE-LAW", fi, what, v, ONE, P, it, fi.node)
+                else:
+                    expect_out(rep, "SNR-LAW", fi, what, v, ONE, E("f(x)") / N / L("snr_db"), it, fi.node)
+                n += 1
+    # without add_noise the output is the nonlinearity's output, untouched
+    for cplx, cmode in ((False, None), (True, "direct"), (True, "cartesian"), (True, "polar")):
+        atoms = {"torch.is_complex(x)": cplx, "self.add_noise": False}
+        for m_ in ("direct", "cartesian", "polar"):
+            atoms[f"self.complex_mode == '{m_}'"] = m_ == cmode
+        v, it = run_fn(repo, fi, {"x": SIG}, atoms, {}, {"self.nonlinear_fn": fsrc})
         n += 1
+        if isinstance(v, SV) and v.kind == "sig" and v.m == ONE:
+            rep.ok("VARIANCE-LAW", fi, f"NonlinearChannel({'complex, ' + cmode if cplx else 'real'}; add_noise=False): {v.show()}", "no noise is added when none is requested", node=fi.node)
+        elif isinstance(v, SV) and v.kind == "out":
+            rep.violation("VARIANCE-LAW", fi, f"NonlinearChannel({'complex, ' + str(cmode) if cplx else 'real'}; add_noise=False): {v.show()}", "noise is added although add_noise is False", node=fi.node)
+        else:
+            rep.undecided("VARIANCE-LAW", fi, f"NonlinearChannel({'complex, ' + str(cmode) if cplx else 'real'}; add_noise=False)", f"law not derived ({v.show() if isinstance(v, SV) else v})", node=fi.node)
     return n
 
 
@@ -241,6 +260,18 @@ def rule_utils(repo: Repo, rep: Report) -> int:
     return n
 
 
+def rule_memo(repo: Repo, rep: Report) -> int:
+    """Derived noise parameters memoised on the channel object must be refreshed when the configured parameter changes."""
+    from .c20 import rule_cache_key, rule_slot_memo
+
+    mod = repo.module(AN)
+    classes = [ci for ci in mod.classes.values() if ci.is_subclass_of("BaseChannel")]
+    k = rule_slot_memo(repo, rep, classes) + rule_cache_key(repo, rep, classes)
+    if k == 0:
+        rep.ok("CACHE-KEY", AN, f"{len(classes)} channel classes: no memoised derived parameter", "every call derives the noise level from the current configuration", nontrivial=False)
+    return 1
+
+
 def run(repo: Repo, rep: Report, tier: str) -> None:
     n = rule_apply_noise(repo, rep)
     n += rule_awgn(repo, rep)
@@ -248,6 +279,7 @@ def run(repo: Repo, rep: Report, tier: str) -> None:
     n += rule_nonlinear(repo, rep)
     n += rule_fading_noise(repo, rep)
     n += rule_utils(repo, rep)
+    n += rule_memo(repo, rep)
     rep.floor("C07 law instances", n, 34)
     rep.decided_clauses += [
         "variance law: real Var = P; complex Var(re)+Var(im) = P; signal factor 1; noise added once",
